@@ -5,6 +5,7 @@ import (
 	"io"
 	"strconv"
 	"strings"
+	"unicode/utf8"
 )
 
 const (
@@ -279,6 +280,20 @@ func NewTokenScanner(src io.Reader) *tokenScanner {
 	return ts
 }
 
+// keywordOf looks an identifier up in the keyword table, ignoring case.
+// Keywords are ASCII words, and only ASCII letters are folded: strings.ToUpper
+// also turns U+017F (long s) into S and U+0131 (dotless i) into I, which made
+// keywords of names such as "\u017fet".
+func keywordOf(text string) (TokenType, bool) {
+	for i := 0; i < len(text); i++ {
+		if text[i] >= utf8.RuneSelf {
+			return 0, false
+		}
+	}
+	kw, isKw := keywords[strings.ToUpper(text)]
+	return kw, isKw
+}
+
 func (ts *tokenScanner) Cur() Token {
 	tok := Token{
 		Column: ts.s.Column,
@@ -290,7 +305,7 @@ func (ts *tokenScanner) Cur() Token {
 	case Ident:
 		tok.Type = IDENT
 		tok.Text = ts.s.TokenText()
-		if kw, isKw := keywords[strings.ToUpper(ts.s.TokenText())]; isKw {
+		if kw, isKw := keywordOf(ts.s.TokenText()); isKw {
 			tok.Type = kw
 		}
 	case Int:
